@@ -297,7 +297,7 @@ func TestVerifC02(t *testing.T) {
 	}()
 	depth, maxN := 5, 4
 	if vres.Thorough() {
-		depth, maxN = 6, 5
+		depth, maxN = 7, 6
 	}
 	if vres.ReplayPath() != "" {
 		var rp vh.HReplay
@@ -314,8 +314,8 @@ func TestVerifC02(t *testing.T) {
 		for n := 1; n <= maxN; n++ {
 			if vh.MyShard(i) {
 				d := depth
-				if n >= 4 {
-					d = depth - 1 + 1
+				if vres.Thorough() && n >= 4 {
+					d = depth - (n - 3) // the alphabet grows with n
 				}
 				vh.RunH(r, "TestVerifC02", c02Spec(c02Params{strat, n}, d))
 			}
